@@ -86,6 +86,17 @@ def entries(rng, shape, kind):
     raise ValueError(kind)
 
 
+def complex_orthogonal(rng, n):
+    """n x n matrix O with O^T O = 1 to rounding but O^H O != 1: a real orthogonal matrix times a direct sum of 2x2 blocks [[cosh t, i sinh t], [-i sinh t, cosh t]]."""
+    G = np.identity(n, dtype=complex)
+    for j in range(0, n - 1, 2):
+        t = float(rng.uniform(0.3, 1.0)) * float(rng.choice([-1, 1]))
+        G[j:j + 2, j:j + 2] = [[np.cosh(t), 1j * np.sinh(t)], [-1j * np.sinh(t), np.cosh(t)]]
+    R = np.linalg.qr(rng.normal(size=(n, n)))[0] if n > 1 else np.ones((1, 1))
+    P = np.identity(n)[rng.permutation(n)]
+    return R @ G @ P
+
+
 def structured_block_matrix(rng, q0, q1, how):
     """Exact structure inside the charge blocks: 'zerocols' (random rows/columns exactly zero, also leading ones), 'binary' (entries 0/1:
     exact dependencies and zero pivots), 'dupcols' (a column/row an exact copy of another one of the same charge)."""
@@ -93,6 +104,17 @@ def structured_block_matrix(rng, q0, q1, how):
     mask = np.equal.outer(np.asarray(q0), np.asarray(q1))
     if how == 'binary':
         return np.where(mask, rng.integers(0, 2, size=(m, n)), 0).astype(float)
+    if how == 'complex-orthogonal':
+        # EVERY charge block has complex-orthogonal columns (M^T M = 1, M^H M != 1) and at least as many rows as columns where possible: the whole matrix
+        # satisfies A^T A = 1 on its non-zero columns -- fools an 'already orthonormal' test that forgets the complex conjugation
+        A = np.zeros((m, n), dtype=complex)
+        for q in np.intersect1d(q0, q1):
+            i = np.where(np.asarray(q0) == q)[0]
+            j = np.where(np.asarray(q1) == q)[0]
+            r, c = len(i), len(j)
+            O = complex_orthogonal(rng, max(r, 2) if r >= 2 else 1)[:r, :min(r, c)]
+            A[np.ix_(i, j[:min(r, c)])] = O
+        return A
     if how == 'nearstruct':
         # every charge block: an exactly structured matrix (Hermitian, symmetric, skew, identity, diagonal, unitary, triangular, normal) on its leading
         # square part plus a perturbation of relative size eps in {0, 1e-13 .. 1e-3} -- "almost" structured blocks
@@ -104,7 +126,7 @@ def structured_block_matrix(rng, q0, q1, how):
             r, c = len(i), len(j)
             k = min(r, c)
             X = rng.normal(size=(k, k)) + (1j * rng.normal(size=(k, k)) if cplx else 0)
-            st = str(rng.choice(['hermitian', 'symmetric', 'skew', 'identity', 'diagonal', 'unitary', 'triangular', 'normal', 'psd']))
+            st = str(rng.choice(['hermitian', 'symmetric', 'skew', 'identity', 'diagonal', 'unitary', 'triangular', 'normal', 'psd', 'complex-orthogonal']))
             if st == 'hermitian':
                 S = X + X.conj().T
             elif st == 'symmetric':
@@ -115,6 +137,9 @@ def structured_block_matrix(rng, q0, q1, how):
                 S = np.identity(k) * float(rng.choice([1.0, -2.0, 0.5]))
             elif st == 'diagonal':
                 S = np.diag(np.diag(X))
+            elif st == 'complex-orthogonal':
+                # O^T O = 1 WITHOUT O^H O = 1 (exponential of a complex antisymmetric matrix): fools an orthonormality test that forgets the conjugation
+                S = complex_orthogonal(rng, k)
             elif st == 'unitary':
                 S = np.linalg.qr(X)[0]
             elif st == 'triangular':
@@ -696,7 +721,19 @@ def pseudo_canonical(rng, psi, how=None):
     'slice-left' / 'slice-right': every slice A[:, a, :] resp. A[:, :, b] has unit norm (hence the same Frobenius coincidence).
     Anything that recognises 'already canonical' by such a coincidence is fooled; the state itself is an ordinary generic state. Returns the label.
     """
-    how = how or str(rng.choice(['frob-left', 'frob-right', 'slice-left', 'slice-right']))
+    how = how or str(rng.choice(['frob-left', 'frob-right', 'slice-left', 'slice-right', 'complex-orthogonal']))
+    if how == 'complex-orthogonal':
+        # left unfoldings (d*Dl x Dr) with M^T M = 1 but M^H M != 1 (columns of exp(complex antisymmetric)); quantum-number-free states only
+        if any(np.any(q) for q in psi.qD) or np.any(psi.qd):
+            how = 'frob-left'
+        else:
+            for i, A in enumerate(psi.A):
+                d, Dl, Dr = A.shape
+                n = d * Dl
+                if Dr > n or n < 2:
+                    continue
+                psi.A[i] = complex_orthogonal(rng, n)[:, :Dr].reshape(d, Dl, Dr)
+            return how
     for i, A in enumerate(psi.A):
         A = np.asarray(A, dtype=complex if np.iscomplexobj(A) else float)
         ax = 1 if how.endswith('left') else 2
